@@ -380,7 +380,112 @@ def percolate_cases():
                               'ew': None, 'nw': None}, 'p': p}
 
 
+# ---------------------------------------------------------------------------
+# (d) long deterministic chains with the documented defaults; (e) percolation of large graphs
+# ---------------------------------------------------------------------------
+
+@st.composite
+def chain_case(draw):
+    n = draw(st.integers(102, 230))
+    shape = draw(st.sampled_from(['path', 'path', 'cycle', 'path+chords']))
+    es = [[i, i + 1] for i in range(n - 1)]
+    if shape == 'cycle':
+        es.append([n - 1, 0])
+    if shape == 'path+chords':
+        for _ in range(draw(st.integers(1, 3))):
+            a = draw(st.integers(0, n - 3))
+            es.append([a, a + 2])
+    return {'n': n, 'edges': es, 'shape': shape, 'seed_node': draw(st.sampled_from([0, n - 1, n // 2])),
+            'sim': draw(st.sampled_from(['discrete_SIR', 'basic_discrete_SIR', 'percolation_based_discrete_SIR'])),
+            'tmin': draw(st.sampled_from([0, 0, 3, -2])), 'full': draw(st.booleans()), 'labels': draw(st.sampled_from(['int', 'str']))}
+
+
+def prop_chain(case):
+    """p = 1: every contact transmits, so node v is infected exactly dist(seed, v) steps after tmin - however long that takes.
+    tmax (documented default: no horizon) and, when it is 0, tmin are left to the callee."""
+    import EoN
+    import networkx as nx
+    n = case['n']
+    lab = (lambda i: i) if case['labels'] == 'int' else (lambda i: 'v%03d' % i)
+    G = nx.Graph()
+    G.add_nodes_from(lab(i) for i in range(n))
+    G.add_edges_from((lab(a), lab(b)) for a, b in case['edges'])
+    dist = nx.single_source_shortest_path_length(G, lab(case['seed_node']))
+    D = max(dist.values())
+    tmin = case['tmin']
+    kw = {'initial_infecteds': [lab(case['seed_node'])], 'return_full_data': case['full']}
+    if tmin != 0:
+        kw['tmin'] = tmin
+    fails = []
+    try:
+        if case['sim'] == 'discrete_SIR':
+            out = EoN.discrete_SIR(G, args=(1,), **kw)
+        else:
+            out = getattr(EoN, case['sim'])(G, 1, **kw)
+        if case['full']:
+            t, Dd = out.summary()
+            t, S, I, R = [float(x) for x in t], [int(x) for x in Dd['S']], [int(x) for x in Dd['I']], [int(x) for x in Dd['R']]
+        else:
+            t, S, I, R = ([float(x) for x in out[0]], [int(x) for x in out[1]], [int(x) for x in out[2]], [int(x) for x in out[3]])
+        by_d = [sum(1 for v in dist.values() if v == k) for k in range(D + 1)]
+        want_t = [float(tmin + k) for k in range(D + 2)]
+        want_I = by_d + [0]
+        want_R = [sum(by_d[:k]) for k in range(D + 2)]
+        want_S = [n - a - b for a, b in zip(want_I, want_R)]
+        if (t, S, I, R) != (want_t, want_S, want_I, want_R):
+            k = next((i for i in range(min(len(t), len(want_t))) if (t[i], S[i], I[i], R[i]) != (want_t[i], want_S[i], want_I[i], want_R[i])), min(len(t), len(want_t)))
+            fails.append(Failure('%s:long-chain' % case['sim'],
+                                 '%s on a %s of %d nodes, p=1, seed %r, tmax left at its default: %d rows ending (t,S,I,R)=%r; generations by distance give %d rows ending %r (first difference at row %d)'
+                                 % (case['sim'], case['shape'], n, case['seed_node'], len(t), (t[-1], S[-1], I[-1], R[-1]) if t else None, len(want_t),
+                                    (want_t[-1], want_S[-1], want_I[-1], want_R[-1]), k)))
+    except Exception as e:
+        fails.append(Failure('%s:long-chain:exception:%s' % (case['sim'], exc_signature(e)), 'raised %r' % (e,)))
+    return Result(fails, nontrivial=D > 100, classes=[case['sim'], 'generations>100' if D > 100 else 'generations<=100'])
+
+
+def big_percolate_cases(seed, quick):
+    import random
+    R = random.Random(seed * 7919 + 13)
+    for n, q in ((60, 1.0), (150, 1.0), (210, 1.0), (330, 0.5)) + (() if quick else ((330, 1.0), (500, 0.3))):
+        for p in (1.0, 0.0, 0.5):
+            yield {'n': n, 'q': q, 'gseed': R.randint(0, 10 ** 6), 'p': p, 'seed': R.randint(0, 10 ** 6)}
+
+
+def prop_big_percolate(case):
+    """sizes up to tens of thousands of edges: p=1 keeps G, p=0 keeps nothing, 0<p<1 keeps a subset whose size is within 8 sigma"""
+    import EoN
+    import random
+    import numpy as np
+    import networkx as nx
+    R = random.Random(case['gseed'])
+    n = case['n']
+    G = nx.Graph()
+    G.add_nodes_from(range(n))
+    G.add_edges_from((i, j) for i in range(n) for j in range(i + 1, n) if case['q'] >= 1.0 or R.random() < case['q'])
+    m = G.number_of_edges()
+    random.seed(case['seed']); np.random.seed(case['seed'] % 2 ** 32)
+    fails = []
+    try:
+        H = EoN.percolate_network(G, case['p'])
+        eg = set(frozenset(e) for e in G.edges())
+        eh = set(frozenset(e) for e in H.edges())
+        k = H.number_of_edges()
+        p = case['p']
+        sd = (m * p * (1 - p)) ** 0.5
+        if set(H.nodes()) != set(G.nodes()) or not eh <= eg or len(eh) != k:
+            fails.append(Failure('percolate_network:large:not-a-subgraph', 'n=%d m=%d p=%r: the result is not a spanning subgraph of G' % (n, m, p)))
+        elif abs(k - m * p) > 8 * sd + 1e-9:
+            fails.append(Failure('percolate_network:large:edge-count', 'n=%d m=%d p=%r: %d edges kept, independent bonds give %.1f +- %.1f' % (n, m, p, k, m * p, sd)))
+    except Exception as e:
+        fails.append(Failure('percolate_network:large:exception:%s' % exc_signature(e), 'raised %r' % (e,)))
+    return Result(fails, nontrivial=True, classes=['edges>=20000' if m >= 20000 else 'edges<20000'])
+
+
 def replay(ctx, sub, case):
+    if sub == 'long-chain':
+        return prop_chain(case).failures
+    if sub == 'percolate-large':
+        return prop_big_percolate(case).failures
     if sub == 'table':
         return prop_table(case).failures
     if sub == 'percolate':
@@ -434,3 +539,7 @@ def run(ctx):
         run_hypothesis(ctx, 'law-n4', law_case_n4(), law_case_check, 300)
     if not only or 'percolate' in only:
         run_cases(ctx, 'percolate', percolate_cases(), percolate_check)
+    if not only or 'percolate-large' in only:
+        run_cases(ctx, 'percolate-large', big_percolate_cases(ctx.seed, quick), prop_big_percolate)
+    if not only or 'long-chain' in only:
+        run_hypothesis(ctx, 'long-chain', chain_case(), prop_chain, 40 if quick else 600, rounds=2)
